@@ -144,7 +144,7 @@ func (n *cnode) RequestNewBlockProposal(ctx context.Context, blockHeight primiti
 func (n *cnode) validAt(height uint64, block interfaces.Block, hash primitives.BlockHash) bool {
 	vb, ok := block.(*vBlock)
 	if !ok || vb == nil {
-		return false
+		return n.cl.lenient // a sloppy consumer that does not look at a missing block
 	}
 	if vb.height != height || string(hashOfBody(vb.body)) != string(hash) {
 		return false
@@ -257,6 +257,7 @@ type cluster struct {
 	rotate    bool     // committee order shifts by one per height
 	nodes     []*cnode // index = member index; nil for Byzantine members
 	bodies    map[string]bool
+	lenient   bool // consumer validators accept a proposal without a block
 	genesisOk bool
 }
 
